@@ -131,7 +131,27 @@ def _um(prop, what, runs_quick=1600):
 		assumptions=UM_ASSUME, real_stub=UM_REAL_STUB)
 
 
+def _c14():
+	from engines.c14 import ENGINE
+	real = dict(UM_REAL_STUB)
+	real["real"] = real["real"] + ["data_dump.DATADumpFile readers on damaged capture files", "data_if.DATAInterface.recv_rx_msg (MS-side receiver)",
+		"TxMsg/RxMsg.parse_msg fed directly"]
+	return ENGINE, dict(
+		level="exploration", runs_quick=1600, budget_quick_s=55,
+		rule="one run = either (a) a valid fake_trx session (as in C05/C10) with hostile datagrams injected at seeded points into control "
+			"and data sockets (non-UTF-8, non-numeric, missing/huge arguments, HSN out of range, embedded NULs, over-long lines, random "
+			"octets, truncated / bit-flipped / wrong-version TRXD, foreign senders) and octets fed straight into TxMsg/RxMsg.parse_msg and "
+			"DATAInterface.recv_rx_msg, judged by: no simulated thread dies, parsers raise nothing but ValueError, at most one response "
+			"per hostile command, and every session oracle of C02/C03/C05/C10/C12/C18 keeps holding for the valid traffic afterwards; "
+			"or (b) a capture file with bit-rot / garbage / huge length fields / wrong tags read through parse_msg and parse_all, which "
+			"must not raise. distinct = distinct abstract traces; non-trivial = an obligation discharged (a) or a damaged file read (b)",
+		assumptions=UM_ASSUME + ["partial effects of a rejected multi-argument command are a don't-care until the next valid absolute command for that verb",
+			"trxcon's trx_if.c is exercised by the trxcon sub-engine when present (see evidence real_vs_stub)"],
+		real_stub=real)
+
+
 REGISTRY = {
+	"C14": _c14,
 	"C02": lambda: _um("C02", "Profile C02: tuning/hopping heavy plans over a small frequency pool, bursts from every transceiver."),
 	"C03": lambda: _um("C03", "Profile C03: burst arrivals at any advance (-5..+25, far future, beyond the hyperframe), duplicates, power cycles, SETFORMAT changes."),
 	"C05": lambda: _um("C05", "Profile C05: command heavy plans over every verb, argument count and value range, foreign source ports, non-CMD datagrams, response delays."),
